@@ -11,6 +11,8 @@ package nsqlookupd
 //@ func (p *tcpServer) Handle(conn net.Conn)
 //@   props C15
 //@   requires[wired] p != nil && p.nsqlookupd != nil && p.nsqlookupd.DB != nil && p.nsqlookupd.opts != nil && conn != nil
+//   (round 6, area M) the daemon's listeners are TCP listeners (nsqlookupd.New [listeners-are-tcp]; immutable fields): part of validP since RealTCPAddr / RealHTTPAddr are verified
+//@   requires[listeners-are-tcp] r6MTcpL(p.nsqlookupd.tcpListener) && r6MTcpL(p.nsqlookupd.httpListener)
 //@   ensures[at-most-one-loop] mIOLoops == old(mIOLoops) || mIOLoops == old(mIOLoops) + 1
 //@   ensures[not-served-means-closed] mIOLoops == old(mIOLoops) ==> closedConn == conn
 //@   ensures[short-read-closes-silently] mIOLoops == old(mIOLoops) && rfErr != nil ==> wN == old(wN) && wCalls == old(wCalls)
